@@ -11,6 +11,7 @@ RULE = ("select/var_select/restrict/var_restrict/var_pick/var_pick_random/pick/p
 
 def programs(rng, tier):
     P = Prog()
+    progs_extra = []
     for nv in (1, 2, 3):
         fs = all_functions(nv)
         if nv == 3 and tier == "quick":
@@ -82,6 +83,23 @@ def programs(rng, tier):
             P.add(["var_pick", bdd_sx(a), str(rng.choice(pool))])
         else:
             P.add(["pick_random", bdd_sx(a), V_, "v" + "".join(rng.choice("01") for _ in range(len(xs)))])
+    # storms of consecutive select / restrict calls (one program = one thread, one call after the other) with short literal lists
+    # over 24..64 variables on few-node operands: state kept between calls and keyed by anything less than the whole literal list
+    # (a hash of it, its length, its last literal) is hit by some consecutive pair
+    for _ in range(40 if tier == "quick" else 400):
+        nv = rng.choice([24, 32, 40, 64])
+        nlit = rng.choice([2, 2, 2, 3])
+        prog = []
+        for s in range(250):
+            sup = sorted(rng.sample(range(nv), rng.randrange(2, 4)))
+            a = bdd_from_tt(nv, sup, [rng.random() < 0.5 for _ in range(1 << len(sup))])
+            xs = rng.sample(range(nv), nlit)
+            if rng.random() < 0.7:
+                xs[0] = rng.choice(sup)
+            xs = list(dict.fromkeys(xs))
+            L = ["L"] + [["P", str(x), rng.choice("TF")] for x in xs]
+            prog.append(["s%d" % s, rng.choice(["select", "select", "select", "restrict"]), bdd_sx(a), L])
+        progs_extra.append(prog)
     # pick lists of MORE than 32 (64) distinct variables: functions of 3..6 supported variables over 33..130 variables, picked
     # over (almost) all variables, in sorted and shuffled order
     for _ in range(40 if tier == "quick" else 1500):
@@ -98,7 +116,7 @@ def programs(rng, tier):
             P.add(["pick", bdd_sx(a), V_])
         else:
             P.add(["pick_random", bdd_sx(a), V_, "v" + "".join(rng.choice("01") for _ in range(len(xs)))])
-    return P.progs
+    return P.progs + progs_extra
 
 
 def judge(st, V):
